@@ -323,7 +323,7 @@ class ImageBatch(DataTensor):
     ) -> Union[Image, TImageBatch, Tensor]:
         r"""Get image at specified batch index, get a sub-batch, or a region of interest tensor."""
         if index is ...:
-            return self._make_instance(self.tensor(), self.grid())
+            return self._make_instance(self.tensor(), self._grid)
         if type(index) is tuple:
             # Resolve additional ellipses
             index = [j for i, j in enumerate(index) if j is not ... or ... not in index[:i]]
@@ -423,9 +423,11 @@ class ImageBatch(DataTensor):
     def narrow(self: TImageBatch, dim: int, start: int, length: int) -> TImageBatch:
         r"""Narrow image batch along specified tensor dimension."""
         data = self.tensor().narrow(dim, start, length)
-        grid = self.grid()
-        if dim > 1:
-            grid = grid.narrow(self.ndim - dim - 1, start, length)
+        grid = self._grid
+        if dim == 0:
+            grid = grid[start : start + length]
+        elif dim > 1:
+            grid = tuple(g.narrow(self.ndim - dim - 1, start, length) for g in grid)
         return self._make_instance(data, grid)
 
     def resize(
